@@ -45,7 +45,9 @@ CLAIMED["C01"] = dict(
     design_ref="5 / C01",
     note="Network faults are abstracted as an arbitrary arrival list over sent chunks; SACK-path faults cannot "
          "influence what the receiver delivers. Tie: receiver-level differential run (extracted model vs real "
-         "InboundStream/_receive_data_chunk) and scripted two-endpoint fault scenarios on real RTCSctpTransport "
+         "InboundStream/_receive_data_chunk; deliveries, SACK contents incl. a_rwnd with small initial windows, state "
+         "after every event), sender-level differential run (Model/SctpSend.v vs the chunks RTCSctpTransport._send "
+         "queues: TSNs, SSN counters at any origin, flags, payload slices around the 1200-byte boundary) and scripted two-endpoint fault scenarios on real RTCSctpTransport "
          "objects incl. mixed reliable + partially reliable channels.",
     technique="Coq proof (induction over arrival lists, invariants, refinement of the stream automaton) + "
               "model/implementation correspondence + scenario oracle",
@@ -350,15 +352,18 @@ CLAIMED["C17"] = dict(
          "by the shift, gap blocks identical), the jitter buffer (sequence numbers mod 2^16 and timestamps mod "
          "2^32), receiver statistics / reports, and the SCTP sender (all message / SACK / T3 / transmit histories: "
          "same congestion state and decisions, outputs' TSNs shifted), and the receiver under a shift of every stream "
-         "sequence number mod 2^16 (same deliveries and SACKs at every step) - 8 theorems. The NACK generator and "
-         "the RTP retransmission history are characterised exactly for every origin by C11_nack_complete and "
-         "C11_history. PARTIAL: reconfiguration sequence number origins and the sender's SSN counter are covered by "
-         "the metamorphic re-run of the implementation (two-endpoint runs with origins across the wrap; SSN origins "
-         "just below the 16-bit wrap with FORWARD-TSN that really abandon ordered messages), not by a theorem.",
+         "sequence number mod 2^16 (same deliveries and SACKs at every step), the sender's SSN counters end to end "
+         "(two senders whose counters differ by any delta, any ordered messages, any loss / duplication / reordering: "
+         "the receivers deliver the same messages and send the same SACKs), the NACK generator (same `missed` verdicts, "
+         "missing set shifted) and the RTP sender's retransmission history (same media packets shifted, same "
+         "retransmissions verbatim or as RTX with the shifted original sequence number, history slots rotated) - 11 "
+         "theorems. PARTIAL: reconfiguration sequence number origins are covered by the metamorphic re-run of the "
+         "implementation (two-endpoint runs with origins across the wrap), not by a theorem.",
     design_ref="5 / C17",
     note="Gen/Utils.v is validated by value inside Coq (vm_compute) against the Python functions on boundary-biased "
-         "pairs each run. Shift theorems are about Model/SctpRecv.v, Model/Jitter.v, Model/Stats.v, each tied to the "
-         "code by its correspondence; this check additionally runs the receiver correspondence at wrap origins and "
+         "pairs each run. Shift theorems are about Model/SctpRecv.v, SctpTx.v, SctpSend.v, RtpRecv.v (NackGenerator), "
+         "RtpSend.v, Jitter.v, Stats.v, each tied to the code by its correspondence; this check re-runs the receiver, "
+         "_send, NackGenerator and RTP sender correspondences at wrap origins and "
          "metamorphic pairs on two real SCTP endpoints, the receive path, JitterBuffer, NackGenerator and "
          "StreamStatistics.",
     technique="Coq proof (lia on generated code, simulation relations for origin shifts) + regeneration + "
